@@ -251,6 +251,8 @@ def P2(ctx: Ctx) -> RuleResult:
                                 printed = True
                             elif (c.name, f.name) in (('HplFunctionCall', 'function'), ('HplUnaryOperator', 'operator'), ('HplBinaryOperator', 'operator')) and t[2] in ('.name', '.token'):
                                 printed = True  # definitions print as their lexeme
+                            elif t[2] == '.value' and getattr(ctx.ev.ann_class(f.annotation, f.cls.module), 'is_enum', False):
+                                printed = True  # the value of an enum member identifies the member
                             else:
                                 per_field_proj[f.name] = t[2]
                         if t[0] == 'j' and t[1] == f.name:
